@@ -280,6 +280,7 @@ def run_obligation(fn, params, name, timeout=20.0, fork=False, max_paths=64, vac
 
 def _run_obligation(fn, params, name, timeout=20.0, fork=False, max_paths=64, vacuity=True, replay=True, only=None):
     t0 = time.time()
+    ctx._CVAL_CACHE.clear()
     out = {"name": name, "params": _jsonable(params), "goals": [], "paths": 0, "status": "ok", "notes": [], "exec_s": 0.0}
     pending = [[]] if fork else [None]
     npaths = 0
